@@ -12,7 +12,7 @@ import math
 
 import numpy as np
 
-from ..core import import_library
+from ..core import describe, import_library
 from ..gen import engines as E
 from ..gen import mutate as M
 from ..probe import Probe, Reach
@@ -32,7 +32,7 @@ class FllMonitor:
     def install(self, probe):
         fl = self.fl
         self.probe = probe
-        probe.wrap(fl.FllExporter, "engine", after=self._after_export)  # to_string(engine), str(engine), Op.to_fll, to_file all end here
+        probe.wrap(fl.FllExporter, "engine", after=self._after_export)  # to_string(engine), describe(engine), Op.to_fll, to_file all end here
         probe.wrap(fl.FllImporter, "from_string", after=self._after_import)
         # which printer/parser pairs ran with non-default values (evidence only)
         for base in (fl.Term, fl.Activation, fl.Defuzzifier):
@@ -231,7 +231,7 @@ def run(ctx):
                         try:
                             way = rnd.choice(["to_string", "to_string", "str", "Op.to_fll", "file", "separator"])
                             if way == "str":
-                                text = str(engine)
+                                text = describe(engine)
                             elif way == "Op.to_fll":
                                 text = fl.Op.to_fll(engine)
                             elif way == "file":
@@ -283,6 +283,28 @@ def run(ctx):
                                     pass
                         if i < 2 and variant == "grid":
                             ctx.sample("engine", {"decimals": d, "fll": text[:2500]})
+        # output variables whose defuzzifiers are written with the same text (`WeightedAverage`, type Automatic) over terms of
+        # different kinds: the imported engine has to tell them apart as the original does
+        for i, rnd in ctx.cases("same defuzzifier text", ctx.scale(25, 1500)):
+            with fl.settings.context(decimals=3):
+                spec = E.gen_engine(rnd, activations=("General",), d=3, kinds=("ts", "tsukamoto", "inverse"), flags=False, max_rules=4)
+                if len(spec["outputs"]) < 2:
+                    spec["outputs"].append(dict(spec["outputs"][0], name="out1", kind="tsukamoto" if spec["outputs"][0]["kind"] != "tsukamoto" else "ts"))
+                    o = spec["outputs"][1]
+                    lo_, hi_ = o["minimum"], o["maximum"]
+                    o["terms"] = [dict(cls="Constant", name="k", params=[lo_], height=1.0)] if o["kind"] == "ts" else [E.G.shape_term(rnd, "m", lo_, hi_, kinds=E.G.MONOTONIC, d=3)]
+                    spec["blocks"][0]["rules"].append(dict(text=f"if {spec['inputs'][0]['name']} is {spec['inputs'][0]['terms'][0]['name']} then out1 is {o['terms'][0]['name']}", tree=None, concl=[], weight=1.0, enabled=True))
+                cls = rnd.choice(["WeightedAverage", "WeightedSum"])
+                for o in spec["outputs"]:
+                    o["defuzzifier"] = dict(cls=cls, type="Automatic")
+                try:
+                    engine = E.build(fl, spec)
+                    text = fl.FllExporter().to_string(engine)  # judged by the monitor
+                except Exception as ex:
+                    ctx.hit(f"inconclusive:generated engine does not build: {type(ex).__name__}: {str(ex)[:60]}")
+                    continue
+                ctx.hit("workload:output variables sharing one defuzzifier text")
+                same_outputs(ctx, fl, rnd, spec, engine, text)
         from . import c01  # the shipped examples: export each (monitor judges), and process through the re-import
 
         import fuzzylite.examples  # noqa: F401
@@ -297,7 +319,7 @@ def run(ctx):
         probe.report(ctx)
         ctx.extra["printer_parser_pairs_with_values"] = sorted(f"{c}.{n}" for c, n in mon.pairs)
         reach.report(ctx)
-    ctx.require("workload:a rule was given a text that the parser rejected")
+    ctx.require("workload:a rule was given a text that the parser rejected", "workload:output variables sharing one defuzzifier text")
     ctx.require("hook:FllExporter.engine", "entry:str", "entry:file", "entry:separator", "entry:Op.to_fll", "hook:FllImporter.from_string", "compare:text fixed point", "compare:structure", "compare:normalisation fixed point", "compare:identical outputs", "event:import accepted", "event:re-export after a weight change", "event:re-export under other decimals", "workload:exotic configuration")
     for d in decs:
         ctx.require(f"decimals:{d}")
